@@ -270,7 +270,15 @@ def extra_checks(rng, tier, notes):
             da = xr.DataArray(np.array([[[rng.randint(-4, 9) for _ in range(3)] for _ in range(2)] for _ in range(2)],
                                        dtype=float), dims=["zc", "yc", "xc"])
             axes = rng.sample(["X", "Y", "Z"], rng.randint(1, 3))
-            rec = {"axes": axes, "da": da.values.tolist()}
+            # the data may be held as integers, or lazily, chunked along dimensions that are not integrated
+            how = rng.choice(["float", "float", "int", "lazy"])
+            if how == "int":
+                da = da.astype("int64")
+            elif how == "lazy":
+                keep = [d for d in da.dims if {"xc": "X", "yc": "Y", "zc": "Z"}[d] not in axes]
+                if keep:
+                    da = da.chunk({d: 1 for d in keep})
+            rec = {"axes": axes, "da": da.values.tolist(), "held": how}
             try:
                 a = g.integrate(da, axes)
                 m = g.get_metric(da, axes)
